@@ -413,7 +413,7 @@ def do_check(pid, tier, only=None, keep=False, jobs=None, scratch=None):
         do_wr = os.environ.get('VP_NO_WITNESS_REPLAY') != '1'
         wr_jobs = [r for r in results if do_wr and r['verdict'] in ('holds', 'cex') and r.get('witness_sample') is not None and r['q'].replay]
         def _wr(r):
-            try: return replay_native(ctx, r['q'], r['prep'], r['witness_sample'])
+            try: return replay_native(ctx, r['q'], r['prep'], r['witness_sample'], timeout=120)
             except Exception as exn: return {'status': 'driver-exception: %s' % exn, 'reproduced': False}
         if wr_jobs:
             build_groups = {}
@@ -424,7 +424,7 @@ def do_check(pid, tier, only=None, keep=False, jobs=None, scratch=None):
         for r in results:
             q = r['q']
             if r['verdict'] in ('error', 'inconclusive', 'vacuous'):
-                if tier == 'thorough' and r.get('resource') and 'quick' not in q.tiers:
+                if tier == 'thorough' and 'quick' not in q.tiers:
                     # thorough tier: a bound that could not be decided inside the time/memory budget is reported as NOT decided (evidence + stderr);
                     # it is neither a success of that query nor a failure of the property on what was explored
                     undecided.append((q.name, r['verdict'], r.get('reason')))
@@ -439,7 +439,7 @@ def do_check(pid, tier, only=None, keep=False, jobs=None, scratch=None):
                 elif w.get('reproduced') and r['verdict'] == 'holds':
                     # every assertion on this path is proved by the solver, yet the real library fails one on the same inputs: the encoding
                     # (translator, model or harness) misrepresents the code -> the query's verdict is not believed
-                    inconclusive.append((q.name, 'witness-replay-mismatch', 'native run of the witness trace: %s %s' % (w['status'], '; '.join(w.get('asserts_failed', []))[:300])))
+                    (undecided if (tier == 'thorough' and 'quick' not in q.tiers) else inconclusive).append((q.name, 'witness-replay-mismatch', 'native run of the witness trace: %s %s' % (w['status'], '; '.join(w.get('asserts_failed', []))[:300])))
                     continue
             if r['verdict'] == 'cex':
                 # group failed properties by description; replay each distinct input vector
@@ -458,7 +458,7 @@ def do_check(pid, tier, only=None, keep=False, jobs=None, scratch=None):
                     else: violations.append((q, fp))
                 if not reproduced or (not_repro and not reproduced):
                     # the solver found an assignment the real library does not reproduce: encoding/stub problem or benign UB
-                    inconclusive.append((q.name, 'cex-not-reproduced', '; '.join(sorted({'%s [%s]' % (fp['desc'], fp['replay'].get('status')) for fp in not_repro}))[:600]))
+                    (undecided if (tier == 'thorough' and 'quick' not in q.tiers) else inconclusive).append((q.name, 'cex-not-reproduced', '; '.join(sorted({'%s [%s]' % (fp['desc'], fp['replay'].get('status')) for fp in not_repro}))[:600]))
                 elif not_repro:
                     r['unreproduced'] = sorted({fp['desc'] for fp in not_repro})
         # ---- report
